@@ -1258,7 +1258,23 @@ pub fn suite_reopen(ctx: &mut Ctx, seed: u64, thorough: bool) {
                     }
                 };
                 s.push_str(&ops::fd_table_diff(&before, &after, ex));
-                s.push_str("\nend\n");
+                s.push('\n');
+                // the same request through the C entry point (the descriptor number crosses the C boundary as an int)
+                if !creation {
+                    let c = unsafe { crate::capi::pathrs_reopen(n, flags) };
+                    if c >= 0 {
+                        s.push_str(&format!("cres ok fd {}\n", ops::describe_fd(c, &labels)));
+                        unsafe { libc::close(c) };
+                    } else {
+                        let e = unsafe { crate::capi::pathrs_errorinfo(c) };
+                        let errno = if e.is_null() { -1 } else { unsafe { (*e).saved_errno as i64 } };
+                        if !e.is_null() {
+                            unsafe { crate::capi::pathrs_errorinfo_free(e) };
+                        }
+                        s.push_str(&format!("cres err {errno}\n"));
+                    }
+                }
+                s.push_str("end\n");
                 if let Some(raw) = ex {
                     unsafe { libc::close(raw) };
                 }
